@@ -555,7 +555,7 @@ struct SerHelper {
 
 /// `let mut s = String::new(); for (i, e) in V.iter().enumerate() { if i > 0 { s.push(SEP); } s.push_str(e.as_ref()); }`
 /// followed by `ser.serialize_str(&s)`: the join, written out
-fn join_loop(stmts: &[syn::Stmt]) -> Option<String> {
+fn join_loop(stmts: &[syn::Stmt], binder: Option<&str>) -> Option<String> {
     let (l, f, tail) = match stmts {
         [syn::Stmt::Local(l), syn::Stmt::Expr(syn::Expr::ForLoop(f), _), syn::Stmt::Expr(tail, None)] => (l, f, tail),
         _ => return None,
@@ -568,9 +568,9 @@ fn join_loop(stmts: &[syn::Stmt]) -> Option<String> {
         syn::Pat::Tuple(t) if t.elems.len() == 2 => (crate::mini::pat_binder(&t.elems[0])?, crate::mini::pat_binder(&t.elems[1])?),
         _ => return None,
     };
-    let (_, calls) = chain(&f.expr);
+    let (base, calls) = chain(&f.expr);
     let names: Vec<String> = calls.iter().map(|c| c.method.to_string()).collect();
-    if names != ["iter", "enumerate"] {
+    if names != ["iter", "enumerate"] || binder.map(|b| ident_of(strip_refs(base)).as_deref() != Some(b)).unwrap_or(true) {
         return None;
     }
     let is_acc = |e: &syn::Expr| ident_of(strip(e)).as_deref() == Some(acc.as_str());
@@ -602,12 +602,12 @@ fn join_loop(stmts: &[syn::Stmt]) -> Option<String> {
     }
 }
 
-fn ser_branch(e: &syn::Expr) -> (String, Option<String>) {
+fn ser_branch(e: &syn::Expr, binder: Option<&str>) -> (String, Option<String>) {
     let stmts: Vec<syn::Stmt> = match e {
         syn::Expr::Block(b) => b.block.stmts.clone(),
         x => vec![syn::Stmt::Expr(x.clone(), None)],
     };
-    if let Some(sep) = join_loop(&stmts) {
+    if let Some(sep) = join_loop(&stmts, binder) {
         return ("serialize_str-join".into(), Some(sep));
     }
     let mut lets: Vec<(String, syn::Expr)> = Vec::new();
@@ -628,9 +628,11 @@ fn ser_branch(e: &syn::Expr) -> (String, Option<String>) {
                     }
                     if n == "serialize_str" && m.args.len() == 1 {
                         let arg = resolve(strip_refs(&m.args[0]), &lets);
-                        let (_, calls) = chain(&arg);
+                        let (base, calls) = chain(&arg);
                         let names: Vec<String> = calls.iter().map(|c| c.method.to_string()).collect();
-                        if names == ["iter", "map", "collect", "join"] {
+                        // the WHOLE list is joined: the chain starts at the binder of `Some(..)` itself (not at a slice of it)
+                        let whole = binder.map(|b| ident_of(strip_refs(base)).as_deref() == Some(b)).unwrap_or(false);
+                        if whole && names == ["iter", "map", "collect", "join"] {
                             let elem_ok = closure1(&calls[1].args[0]).map(|(v, b)| matches!(s_term(b, &v), S::It)).unwrap_or(false);
                             if elem_ok {
                                 if let Some(sep) = str_lit(strip(&calls[3].args[0])) {
@@ -658,9 +660,26 @@ fn strip_refs(e: &syn::Expr) -> &syn::Expr {
 fn ser_helper(file: &str, name: &str, f: &syn::ItemFn) -> R<SerHelper> {
     let shape = "`if let Some(v) = opt { ser.serialize_str(&v.iter().map(|s| s.as_ref()).collect::<Vec<_>>().join(SEP)) } else { ser.serialize_none() }` or the same as a match";
     // `let v = match opt { Some(v) => v, None => return <none branch> }; <some branch>`
+    // what is inspected is the function's first parameter (the optional list), as a whole
+    let subject = crate::mini::param_names(&f.sig).first().cloned().unwrap_or_default();
+    let is_subject = |e: &syn::Expr| -> bool {
+        let mut e = strip(e);
+        loop {
+            match e {
+                syn::Expr::Reference(r) => e = strip(&r.expr),
+                syn::Expr::Unary(u) if matches!(u.op, syn::UnOp::Deref(_)) => e = strip(&u.expr),
+                syn::Expr::MethodCall(m) if m.args.is_empty() && (m.method == "as_ref" || m.method == "as_deref") => e = strip(&m.receiver),
+                _ => break,
+            }
+        }
+        ident_of(e).as_deref() == Some(subject.as_str())
+    };
     if let Some(syn::Stmt::Local(l)) = f.block.stmts.first() {
-        if let Some((_, _, init)) = plain_let(l) {
+        if let Some((let_name, _, init)) = plain_let(l) {
             if let syn::Expr::Match(m) = strip(init) {
+                if !is_subject(&m.expr) {
+                    return fail(file, name, shape);
+                }
                 let (mut passes, mut none_branch) = (false, None);
                 for a in &m.arms {
                     if let Some(b) = pat_some(&a.pat) {
@@ -668,7 +687,7 @@ fn ser_helper(file: &str, name: &str, f: &syn::ItemFn) -> R<SerHelper> {
                     } else if pat_is_none(&a.pat) {
                         if let syn::Expr::Return(r) = strip(&a.body) {
                             if let Some(x) = &r.expr {
-                                none_branch = Some(ser_branch(x).0);
+                                none_branch = Some(ser_branch(x, None).0);
                             }
                         }
                     }
@@ -679,7 +698,7 @@ fn ser_helper(file: &str, name: &str, f: &syn::ItemFn) -> R<SerHelper> {
                         label: None,
                         block: syn::Block { brace_token: Default::default(), stmts: f.block.stmts[1..].to_vec() },
                     });
-                    let (s, sep) = ser_branch(&then);
+                    let (s, sep) = ser_branch(&then, Some(let_name.as_str()));
                     return Ok(SerHelper { name: name.into(), on_some: s, sep, on_none: n });
                 }
             }
@@ -691,29 +710,33 @@ fn ser_helper(file: &str, name: &str, f: &syn::ItemFn) -> R<SerHelper> {
     };
     match strip(&body) {
         syn::Expr::If(i) => {
-            let pat = match &*i.cond {
-                syn::Expr::Let(l) => &*l.pat,
+            let (pat, scrut) = match &*i.cond {
+                syn::Expr::Let(l) => (&*l.pat, &*l.expr),
                 _ => return fail(file, name, shape),
             };
-            if pat_some(pat).is_none() {
-                return fail(file, name, shape);
-            }
+            let binder = match pat_some(pat) {
+                Some(b) if is_subject(scrut) => b,
+                _ => return fail(file, name, shape),
+            };
             let els = match &i.else_branch {
                 Some((_, e)) => e,
                 None => return fail(file, name, shape),
             };
             let then = syn::Expr::Block(syn::ExprBlock { attrs: vec![], label: None, block: i.then_branch.clone() });
-            let (s, sep) = ser_branch(&then);
-            let (n, _) = ser_branch(els);
+            let (s, sep) = ser_branch(&then, Some(binder.as_str()));
+            let (n, _) = ser_branch(els, None);
             Ok(SerHelper { name: name.into(), on_some: s, sep, on_none: n })
         }
         syn::Expr::Match(m) => {
+            if !is_subject(&m.expr) {
+                return fail(file, name, shape);
+            }
             let (mut s, mut n) = (None, None);
             for a in &m.arms {
-                if pat_some(&a.pat).is_some() {
-                    s = Some(ser_branch(&a.body));
+                if let Some(b) = pat_some(&a.pat) {
+                    s = Some(ser_branch(&a.body, Some(b.as_str())));
                 } else if pat_is_none(&a.pat) {
-                    n = Some(ser_branch(&a.body).0);
+                    n = Some(ser_branch(&a.body, None).0);
                 }
             }
             match (s, n) {
